@@ -978,6 +978,9 @@ class PrimMixin:
         raise Unsupported("np.array of %s" % kind_of(v), node)
 
     def np_asarray(self, args, kw, st, fr, node):
+        if isinstance(args[0], Ref) and type(st.get(args[0])).__name__ == "HBO" and "dtype" not in kw and len(args) == 1:
+            self.use("numpy.asarray / ascontiguousarray of an array may return the array itself or a view sharing its buffer")
+            return args[0]
         kw = dict(kw)
         kw["copy"] = False
         return self.np_array(args, kw, st, fr, node)
@@ -1301,6 +1304,10 @@ class PrimMixin:
     def nd_view(self, args, kw, st, fr, node):
         a = args[0]
         h = st.get(a)
+        if type(h).__name__ == "HBO":
+            # a view of a different array class over the same buffer: writes through it are writes to the original
+            r = st.alloc(h.replace())
+            return r
         if isinstance(h, HArr):
             return st.alloc(HArr(h.kind, h.n, None, base=(a, 0, 1), fresh=h.fresh, unit=h.unit))
         return a
